@@ -93,6 +93,35 @@ Proof.
   intro a. rewrite Hx, Hx'. rewrite S1, S2. tauto.
 Qed.
 
+(* ---------- (ii) and (i) together: the store may differ at the start AND grow differently in the middle ----------
+   One manager posts ps1, the store grows (by other managers' diagrams: any well-formed extension, of any size - in
+   particular across any size threshold), the same manager posts ps2.  Run twice, from two arbitrary well-formed
+   stores and with two arbitrary growths (one of them may be empty: the posts executed alone, first thing in a
+   process): the same posts are accepted and the same user assignments extend. *)
+Theorem post_span_store_independent : forall (m0 m0' : memory) ps1 ps2,
+  mem_wf m0 -> mem_wf m0' -> Forall post_ok ps1 -> Forall post_ok ps2 ->
+  exists m1 s1 m1' s1' sts1,
+    run_posts m0 empty_mgr ps1 = Some (m1, s1, sts1) /\ run_posts m0' empty_mgr ps1 = Some (m1', s1', sts1) /\
+    forall ex ex' : memory, mem_wf (m1 ++ ex) -> mem_wf (m1' ++ ex') ->
+      exists m2 s2 m2' s2' sts2,
+        run_posts (m1 ++ ex) s1 ps2 = Some (m2, s2, sts2) /\ run_posts (m1' ++ ex') s1' ps2 = Some (m2', s2', sts2) /\
+        (forall a, ext a (clauses s2) <-> ext a (clauses s2')) /\
+        (forall a, ext a (clauses s2) <-> accepted_hold a ps1 sts1 /\ accepted_hold a ps2 sts2).
+Proof.
+  intros m0 m0' ps1 ps2 W W' Ok1 Ok2.
+  destruct (post_span m0 ps1 ps2 W Ok1 Ok2) as (m1 & s1 & sts1 & E1 & _ & H1).
+  destruct (post_span m0' ps1 ps2 W' Ok1 Ok2) as (m1' & s1' & sts1' & E1' & _ & H1').
+  pose proof (run_posts_status _ _ _ _ _ _ E1) as S1. pose proof (run_posts_status _ _ _ _ _ _ E1') as S1'.
+  exists m1, s1, m1', s1', sts1. split; [exact E1|]. split; [rewrite S1, <- S1'; exact E1'|].
+  intros ex ex' Wx Wx'.
+  destruct (H1 ex Wx) as (m2 & s2 & sts2 & E2 & _ & X2).
+  destruct (H1' ex' Wx') as (m2' & s2' & sts2' & E2' & _ & X2').
+  pose proof (run_posts_status _ _ _ _ _ _ E2) as S2. pose proof (run_posts_status _ _ _ _ _ _ E2') as S2'.
+  exists m2, s2, m2', s2', sts2. split; [exact E2|]. split; [rewrite S2, <- S2'; exact E2'|].
+  split; [|exact X2].
+  intro a. rewrite X2, X2'. rewrite S1, S1', S2, S2'. tauto.
+Qed.
+
 (* ---------- stores of every size ---------- *)
 Lemma wf_store_any_size : forall n, mem_wf (repeat (("x"%string, 1, 0) : node) n) /\
                                     List.length (repeat (("x"%string, 1, 0) : node) n) = n.
